@@ -486,21 +486,21 @@ func appendInt(dst []byte, bits uint8, index uint64) []byte {
 	}
 	b0 := uint64(1<<bits - 1)
 
-	if index <= b0 {
+	// Strictly below: a value of exactly 2^N-1 fills the prefix and so must be
+	// followed by a continuation octet (of zero), or the peer keeps reading.
+	if index < b0 {
 		dst[len(dst)-1] |= byte(index)
 		return dst
 	}
 
 	dst[len(dst)-1] |= byte(b0)
 	index -= b0
-	for index != 0 {
+	for index >= 128 {
 		dst = append(dst, 128|byte(index&127))
 		index >>= 7
 	}
 
-	dst[len(dst)-1] &= 127
-
-	return dst
+	return append(dst, byte(index))
 }
 
 // readString reads string from a header field.
@@ -566,11 +566,11 @@ func appendString(dst, src []byte, encode bool) []byte {
 	// TODO: Encode only if length is lower with the string encoded
 
 	n := uint64(len(b))
-	nn := len(dst) - 1 // peek last byte
-	if nn >= 0 && dst[nn] != 0 {
-		dst = append(dst, 0)
-		nn++
-	}
+	// The string gets a length octet of its own. Reusing a trailing zero of
+	// dst as that octet merged the length into whatever came before whenever
+	// that happened to end in a zero byte.
+	nn := len(dst)
+	dst = append(dst, 0)
 
 	dst = appendInt(dst, 7, n)
 	dst = append(dst, b...)
@@ -629,7 +629,7 @@ func (hp *HPACK) AppendHeader(dst []byte, hf *HeaderField, store bool) []byte {
 				}
 			}
 		} else if !store || hp.DisableDynamicTable { // with or without indexing
-			dst = append(dst, 0, 0)
+			dst = append(dst, 0)
 		} else {
 			dst = append(dst, literalByte)
 			hp.addDynamic(hf)
